@@ -3,7 +3,11 @@
   plane spacings, wrapping, intervals of the fractional coordinates), the `points` setter,
   `__getitem__` and `get_localgrid`.
 
-  Hand-written; tied to the code by correspondence (harness/props/c11.py).  No Mathlib import.
+  Hand-written.  Tie to the code: `PeriodicGrid.__init__`, the `points` setter, `__getitem__` and
+  `get_localgrid` are translated statement by statement into `Gen/LocalGrid.lean`
+  (harness/translate/localgrid.py) and proved equal to the functions below (`Props/C11/Gen.lean`);
+  the driver executes the generated definitions, compared with the implementation by
+  harness/props/c11.py.  No Mathlib import.
 
   * Vectors are coordinate lists (`Model/LocalGrid.lean`); 1-D array points (`points.ndim == 1`)
     are `[x]`, a 1-D lattice vector `np.array([a])` is `[[a]]`.
